@@ -20,6 +20,7 @@ type GenParams struct {
 	SmallPages bool // only 1024 byte pages
 	NoFill     bool
 	AbortHeavy bool // more rollbacks / closes
+	HugeTx     bool // rarely: one transaction with more page writes than the writer's batch buffer (1024)
 	Shapes     bool // bulk shapes: fragmented free lists, many overwrites, big regions
 }
 
@@ -189,5 +190,16 @@ func GenProgram(t *rapid.T, p GenParams) *Program {
 		minItems = 1
 	}
 	prog.Items = rapid.SliceOfN(rapid.Custom(func(t *rapid.T) Item { return GenItem(t, p) }), minItems, maxItems).Draw(t, "items")
+	if p.HugeTx && rapid.IntRange(0, 299).Draw(t, "huge") == 0 && (prog.Cfg.MaxPages == 0) {
+		// more queued page writes than the background writer takes in one batch,
+		// all queued before the writer runs (stall) - followed by ordinary transactions
+		n := rapid.IntRange(1030, 1500).Draw(t, "hugeN")
+		huge := Item{Tx: &Tx{Stall: true, Ops: []Op{{K: OpAlloc, A: n}, {K: OpWriteMany, A: 0, B: 0}, {K: OpSetRoot, A: 3}}, End: EndCommit}}
+		fill := Item{Tx: &Tx{Stall: true, Ops: []Op{{K: OpWriteMany, A: 0, B: n, C: rapid.IntRange(1, 1<<20).Draw(t, "hugeSeed")}}, End: EndCommit}}
+		at := rapid.IntRange(0, len(prog.Items)).Draw(t, "hugeAt")
+		items := append([]Item{}, prog.Items[:at]...)
+		items = append(items, huge, fill)
+		prog.Items = append(items, prog.Items[at:]...)
+	}
 	return prog
 }
